@@ -623,6 +623,15 @@ def rule_upper_quoted(ctx, rule):
                     break
             if bad:
                 break
+        if bad is None:
+            # what int(x, 16) accepts and a hex-digit test does not: a sign, surrounding blanks, non-ASCII digits, an underscore
+            for sx in ("100%+fat", "20%-a-day", "100% acrylic", "%\u0663a", "%a ", "%\uff11f", "% f", "%_a", "%a_", "%0x", "%\ta"):
+                n_tab += 1
+                exp = refrx.sub(lambda mo: mo.group(0).upper(), sx)
+                got = run_function(repo, uref, [sx])
+                if got != exp:
+                    bad = (sx, got, exp)
+                    break
         ctx.ob(rule, "upper_quoted/table", bad is None,
                "upper_quoted(%r) gives %r, expected %r: it must only change the case of hex digits inside valid %%HH escapes" % (bad or ("", "", "")), q.site(uref.node), witness=bad and bad[0],
                sample="%d strings over the alphabet {%%, a, F, 4, z, e-acute} up to length %d" % (n_tab, 6 if ctx.tier == "thorough" else 4))
